@@ -108,6 +108,114 @@ fn domain_isolation<const N1: usize, const N2: usize, const NN: usize>(only_rela
     kani::cover!(related, "identical or prefix-related prefixes");
 }
 
+/// The same statements with the file name written down directly (`<prefix><name>.s`, which is what
+/// `c19_path_for_shape` shows `path_for` to produce) instead of going through `path_for` and
+/// `FilePath::file_name`: one call of the real `extract_name_from_file` per domain.
+fn cross_domain_direct<const N1: usize, const N2: usize, const NN: usize>(only_related: bool) {
+    let (p1, n1) = any_fragment(N1);
+    let (p2, n2) = any_fragment(N2);
+    let (nm, nn) = any_fragment(NN);
+    let related = starts_with(&p1[..n1], &p2[..n2]) || starts_with(&p2[..n2], &p1[..n1]);
+    if only_related {
+        kani::assume(related && !eq_bytes(&p1[..n1], &p2[..n2]));
+    }
+    let mut buf = [0u8; 8];
+    let mut k = 0;
+    while k < 3 {
+        if k < n1 {
+            buf[k] = p1[k];
+        }
+        if k < nn {
+            buf[n1 + k] = nm[k];
+        }
+        k += 1;
+    }
+    buf[n1 + nn] = b'.';
+    buf[n1 + nn + 1] = b's';
+    let file = mk_name(&buf[..n1 + nn + 2]);
+    let cfg2 = mk_cfg(&p2[..n2], b".s", b"/r");
+    if only_related {
+        assert!(cfg2.extract_name_from_file(&file).is_none(), "c19: a domain whose prefix is a prefix of (or extends) another domain's prefix sees that domain's file");
+        return;
+    }
+    let cfg1 = mk_cfg(&p1[..n1], b".s", b"/r");
+    match cfg1.extract_name_from_file(&file) {
+        Some(back) => assert!(eq_bytes(back.as_bytes(), &nm[..nn]), "c19: name does not round-trip through its own domain"),
+        None => assert!(false, "c19: a domain does not recognise its own file"),
+    }
+    if !related {
+        assert!(cfg2.extract_name_from_file(&file).is_none(), "c19: a foreign domain (unrelated prefix) sees this file");
+    }
+    let other_suffix = mk_cfg(&p1[..n1], b".t", b"/r");
+    assert!(other_suffix.extract_name_from_file(&file).is_none(), "c19: a domain with a different suffix sees this file");
+    kani::cover!(!related, "two unrelated prefixes");
+    kani::cover!(related, "identical or prefix-related prefixes");
+}
+
+/// `path_for` produces `<root>/<prefix><name><suffix>` and nothing else
+proof!(12, fn c19_path_for_shape() {
+    let (p1, n1) = any_fragment(2);
+    let (nm, nn) = any_fragment(2);
+    let cfg1 = mk_cfg(&p1[..n1], b".s", b"/r");
+    let fp = cfg1.path_for(&mk_name(&nm[..nn]));
+    let b = fp.as_bytes();
+    assert!(b.len() == 3 + n1 + nn + 2, "c19: path_for length");
+    assert!(b[0] == b'/' && b[1] == b'r' && b[2] == b'/', "c19: created path is not under the configured root");
+    assert!(b[3] == p1[0] && b[4] == p1[1] && b[5] == nm[0] && b[6] == nm[1] && b[7] == b'.' && b[8] == b's',
+        "c19: path_for is not <root>/<prefix><name><suffix>");
+    canaries();
+});
+
+/// (iii) roots, with the path written down directly (`/r/p<name>.s`, see `c19_path_for_shape`):
+/// one or two calls of the real `extract_name_from_path` per harness.
+fn root_direct<const WHICH: u8>() {
+    let (nm, nn) = any_fragment(2);
+    let mut buf = *b"/r/pXX.s";
+    buf[4] = nm[0];
+    buf[5] = nm[1];
+    let fp = unsafe { FilePath::new_unchecked(&buf[..4 + nn + 2]) };
+    // (for nn < 2 the tail is shifted: the suffix must follow the name)
+    kani::assume(nn == 2);
+    let cfg1 = mk_cfg(b"p", b".s", b"/r");
+    match WHICH {
+        0 => {
+            match cfg1.extract_name_from_path(&fp) {
+                Some(back) => assert!(eq_bytes(back.as_bytes(), &nm[..nn]), "c19: name does not round-trip through its own root"),
+                None => assert!(false, "c19: a domain does not recognise its own path"),
+            }
+            let other = mk_cfg(b"p", b".s", b"/q");
+            assert!(other.extract_name_from_path(&fp).is_none(), "c19: a domain with a different (unrelated, nested or sibling) root sees this file");
+        }
+        1 => {
+            let nested = mk_cfg(b"p", b".s", b"/r/i");
+            assert!(nested.extract_name_from_path(&fp).is_none(), "c19: a domain with a different (unrelated, nested or sibling) root sees this file");
+            let mut deep = *b"/r/i/pXX.s";
+            deep[6] = nm[0];
+            deep[7] = nm[1];
+            let fp_nested = unsafe { FilePath::new_unchecked(&deep[..6 + nn + 2]) };
+            assert!(cfg1.extract_name_from_path(&fp_nested).is_none(), "c19: a domain sees a file created under a different root");
+        }
+        2 => {
+            let sibling = mk_cfg(b"p", b".s", b"/rr");
+            assert!(sibling.extract_name_from_path(&fp).is_none(), "c19: a domain with a different (unrelated, nested or sibling) root sees this file");
+        }
+        _ => {
+            let same = mk_cfg(b"p", b".s", b"/r/");
+            assert!(same.extract_name_from_path(&fp).is_some(), "c19: an equivalent spelling of the root lost its own file");
+        }
+    }
+    canaries();
+}
+
+proof!(12, fn c19_root_direct_own_and_unrelated() { root_direct::<0>(); });
+proof!(12, fn c19_root_direct_nested() { root_direct::<1>(); });
+proof!(12, fn c19_root_direct_sibling() { root_direct::<2>(); });
+proof!(12, fn c19_root_direct_same_spelling() { root_direct::<3>(); });
+
+proof!(12, fn c19_cross_domain_direct() { cross_domain_direct::<2, 2, 2>(false); canaries(); });
+proof!(12, fn c19_cross_domain_direct_mixed_len() { cross_domain_direct::<1, 2, 2>(false); canaries(); });
+proof!(12, fn c19_cross_domain_direct_prefix_of_prefix() { cross_domain_direct::<1, 2, 2>(true); });
+
 proof!(12, fn c19_domain_isolation() { domain_isolation::<2, 2, 2>(false); canaries(); });
 proof!(12, fn c19_domain_isolation_mixed_len() { domain_isolation::<1, 2, 2>(false); canaries(); });
 
